@@ -85,18 +85,23 @@ Record fcase := mkfcase {
   f_go_errhdr : bool;
   f_harness_ok : bool;
   f_k : N; f_headlen : N; f_replylen : N;   (* cut point, length of the reply's head, of the whole reply *)
-  f_client_minor : N                         (* the client spoke HTTP/1.<minor> *)
+  f_client_minor : N;                        (* the client spoke HTTP/1.<minor> *)
+  f_closed : bool;                           (* the client's stream ended (FIN or reset) — false: still open when the client gave up *)
+  f_reject : bool                            (* the reply is an upstream proxy's rejection of the transport's CONNECT (relayed via connectError) *)
 }.
 
 Definition is_error_response (r : presult) : bool := has_header error_header r.
 
 (* what the client ends up with:
    0 a complete error response of the proxy, 1 the origin's response with its whole body,
-   2 no complete message (connection closed), 3 a complete-looking message with a truncated body *)
+   2 no complete message, connection closed, 3 a complete-looking message with a truncated body,
+   4 a CONNECT rejection relayed WITHOUT its body (honestly announced: Content-Length: 0),
+   5 no complete message and the connection still open when the client gave up *)
 Definition fcase_class_r (c : fcase) (r : presult) : N :=
   match pv r with
-  | Complete => if is_error_response r then 0 else if str_eqb (pbody r) (f_body c) then 1 else 3
-  | _ => 2
+  | Complete => if is_error_response r then 0 else if str_eqb (pbody r) (f_body c) then 1
+                else if f_reject c && match pbody r with [] => true | _ => false end && (pframing r =? 1) then 4 else 3
+  | _ => if f_closed c then 2 else 5
   end.
 
 (* what the path model says: a failure before the origin's head is complete yields the proxy's error
@@ -107,6 +112,7 @@ Definition fcase_class_r (c : fcase) (r : presult) : N :=
 Definition fcase_expect (c : fcase) : N :=
   if f_k c <? f_headlen c then 0
   else if f_k c =? f_replylen c then 1
+  else if f_reject c then 4   (* OnProxyConnectResponse could not read the rejection's body: status and header relayed, body dropped *)
   else if (f_framing c =? 3) || ((f_framing c =? 2) && (f_client_minor c =? 0))
        then (if (f_framing c =? 3) && negb (f_rst c) then 1 else 3)
        else 2.
@@ -126,9 +132,11 @@ Definition fcase_prop_ok_r (c : fcase) (r : presult) : bool :=
       (if is_error_response r
        then (500 <=? pstatus r) && (pstatus r <=? 599) && (pframing r =? 1)
        else (* the origin's own response: then it must be ALL of it *)
-            (pstatus r =? f_up c) && str_eqb (pbody r) (f_body c) &&
-            (f_full c || (f_sent c =? N.of_nat (length (f_body c)))))
-  | Incomplete | Nothing => true      (* closed without a complete message *)
+            (pstatus r =? f_up c) &&
+            ((str_eqb (pbody r) (f_body c) && (f_full c || (f_sent c =? N.of_nat (length (f_body c))))) ||
+             (* a rejected CONNECT may be relayed without its body, announced as empty *)
+             (f_reject c && match pbody r with [] => true | _ => false end && (pframing r =? 1))))
+  | Incomplete | Nothing => f_closed c    (* after the head only a CLOSED connection is acceptable *)
   | Malformed => false
   end.
 
